@@ -166,6 +166,47 @@ fn run(name: &str) -> String {
             for i in 0..=1000 { let q = u.quantile(i as f64 / 1000.0).unwrap(); if q < prev { bad += 1; } prev = q; }
             format!("image quantiles: {} | streamed k=10 n=2000: {} decreasing steps of 1000", qs.join(" "), bad)
         }
+        "td_quantile_nan" => {
+            // image: centroids (1.0,w=2) (3.0,w=2), min 0, max 4: W=4, rank 0.75 -> weight 3 = W-1
+            let mut b = vec![2u8, 1, 20]; b.extend_from_slice(&100u16.to_le_bytes()); b.push(0); b.extend_from_slice(&0u16.to_le_bytes());
+            b.extend_from_slice(&2u32.to_le_bytes()); b.extend_from_slice(&0u32.to_le_bytes());
+            b.extend_from_slice(&0f64.to_le_bytes()); b.extend_from_slice(&4f64.to_le_bytes());
+            for (m, w) in [(1.0f64, 2u64), (3.0, 2)] { b.extend_from_slice(&m.to_le_bytes()); b.extend_from_slice(&w.to_le_bytes()); }
+            let mut t = TDigestMut::deserialize(&b, false).unwrap();
+            let img = t.quantile(0.75);
+            // streamed: search k, n for a NaN quantile at rank (W-1)/W
+            let mut found = String::from("none");
+            'o: for k in [10u16, 12, 15, 20, 25, 30, 50, 100] {
+                let mut u = TDigestMut::new(k);
+                for n in 1..4000u64 {
+                    u.update(n as f64);
+                    let w = u.total_weight() as f64;
+                    let q = u.quantile((w - 1.0) / w);
+                    if let Some(q) = q { if q.is_nan() { found = format!("k={k} n={n} quantile(({w}-1)/{w})=NaN"); break 'o; } }
+                }
+            }
+            let mut found2 = String::from("none");
+            let mut x: u64 = 88172645463325252;
+            'p: for k in [10u16, 20, 50, 100, 200] {
+                for trial in 0..40 {
+                    let mut u = TDigestMut::new(k);
+                    let mut v = TDigestMut::new(k);
+                    for n in 1..1500u64 {
+                        x ^= x << 13; x ^= x >> 7; x ^= x << 17;
+                        let val = if trial % 4 == 0 { (x % 7) as f64 } else if trial % 4 == 1 { -(n as f64) } else { (x % 1000) as f64 / 10.0 };
+                        u.update(val);
+                        if n % 3 == 0 { v.update(val); }
+                        if n % 97 == 0 { u.merge(&v); }
+                        if n % 5 != 0 { continue; }
+                        let w = u.total_weight() as f64;
+                        for j in [1.0, 2.0, 3.0] {
+                            if let Some(q) = u.quantile((w - j) / w) { if q.is_nan() { found2 = format!("k={k} trial={trial} n={n} W={w} quantile((W-{j})/W)=NaN"); break 'p; } }
+                        }
+                    }
+                }
+            }
+            format!("image q(0.75)={:?} | streamed: {} | random/merge: {}", img, found, found2)
+        }
         "td_cdf_empty" => {
             let mut t = TDigestMut::new(100);
             for i in 0..100 { t.update(i as f64); }
